@@ -76,6 +76,11 @@ def switch_source(body, t):
         if df is None:
             return ("local", l, pol)
         if df["kind"] == "call":
+            if callee_def(df["term"]) == "core::ops::bit::Not::not" and df["term"]["args"] and "p" in df["term"]["args"][0] and \
+                    not df["term"]["args"][0]["p"]["proj"]:
+                pol = not pol
+                l = df["term"]["args"][0]["p"]["l"]
+                continue
             return ("call", df["term"], pol, df["bi"])
         rv = df["rv"]
         if rv["k"] == "discr":
